@@ -156,7 +156,11 @@ def run_one(mod, case, ctx):
     monitors.drain()
     if case.family == 'upstream-examples':
         from . import upstream
-        out = upstream.run_chunk(case, ctx, Outcome(), mod.ID)
+        out = upstream.run_chunk(
+            case, ctx, Outcome(), mod.ID,
+            all_decks=getattr(mod, 'UPSTREAM_DECKS', None) == 'all',
+            extra=getattr(mod, 'upstream_judge', None),
+            with_points=getattr(mod, 'UPSTREAM_POINTS', True))
         out.structure = f'upstream-examples-{case.index}'
         out.nontrivial = out.judged > 0
         if not out.counters['upstream_decks']:
